@@ -5,7 +5,7 @@ from __future__ import annotations
 import asyncio
 from typing import Any
 
-from . import vloop
+from . import uvrun, vloop
 from .replay import Recorder, ScenarioController, ensure_repo_on_path
 
 
@@ -14,7 +14,7 @@ def _by_name(name: str) -> int:
     return int(name[1:]) if name and name[0] == "t" and name[1:].isdigit() else -1
 
 
-def run_scenario(scn: dict, *, fast: bool = False, eager: bool = False) -> dict:
+def run_scenario(scn: dict, *, fast: bool = False, eager: bool = False, uv: bool = False) -> dict:
     """Execute one scenario; returns {"events": [...], "final": {...}, "flags": {...}}."""
     ensure_repo_on_path()
     import anyio
@@ -66,6 +66,7 @@ def run_scenario(scn: dict, *, fast: bool = False, eager: bool = False) -> dict:
     ctl.recorder = rec
 
     async def client(t: int, script: list[str]) -> None:
+        state["ids"][id(asyncio.current_task())] = t     # (under the eager factory we run before main registers us)
         lock = state["lock"]
         holding = False
         with state["scopes"][t]:
@@ -117,7 +118,7 @@ def run_scenario(scn: dict, *, fast: bool = False, eager: bool = False) -> dict:
                         rec.emit(ev="rel", t=t, res="ok", **obs())
 
     async def main() -> None:
-        loop = state["loop"] = asyncio.get_running_loop()
+        loop = state["loop"] = uvrun.view(asyncio.get_running_loop())
         ctl.hidden_tasks.add(asyncio.current_task())
         state["lock"] = anyio.Lock(fast_acquire=fast)
         state["scopes"] = {t: anyio.CancelScope() for t in range(1, nt + 1)}
@@ -130,7 +131,7 @@ def run_scenario(scn: dict, *, fast: bool = False, eager: bool = False) -> dict:
         await asyncio.wait(list(state["tasks"].values()))
         quiescent()
 
-    loop, _res, err = vloop.run(main, ctl, eager=eager, max_handles=20000)
+    loop, _res, err = (uvrun.run if uv else vloop.run)(main, ctl, eager=eager, max_handles=20000)
     rec.closed = True
     final = state.get("final")
     flags = {"deadlock": isinstance(err, vloop.Deadlock), "budget": loop.budget_exceeded,
